@@ -72,6 +72,25 @@ impl ListFault {
         for k in 0..n { v.push(ListFault::Truncate(k)); }
         v
     }
+    /// the faults at the ends of a list of length n (first / last element, append, cut the tail,
+    /// swap across the whole list and of the last two): where chunked or staged processing of
+    /// a long list goes wrong
+    pub fn edges(n: usize) -> Vec<ListFault> {
+        if n == 0 { return vec![ListFault::Insert(0)]; }
+        let mut v = vec![ListFault::Alter(n - 1, 2), ListFault::Alter(n - 1, 0), ListFault::Alter(0, 0), ListFault::Drop(n - 1), ListFault::Dup(n - 1), ListFault::ExtendElem(n - 1), ListFault::Insert(n), ListFault::Insert(0), ListFault::Truncate(n - 1), ListFault::Drop(0)];
+        if n >= 2 { v.push(ListFault::Swap(0, n - 1)); v.push(ListFault::Swap(n - 2, n - 1)); v.push(ListFault::Alter(n - 2, 1)); }
+        if n >= 5 { v.push(ListFault::Alter(n - 3, 2)); v.push(ListFault::Alter(n - 4, 0)); v.push(ListFault::Truncate(n - 3)); }
+        v
+    }
+    /// the complete catalogue when it has at most `budget` entries, otherwise the edge faults
+    /// plus `extra` random ones
+    pub fn pick(ch: &mut Chooser, n: usize, budget: usize, extra: usize) -> Vec<ListFault> {
+        let all = ListFault::all(n);
+        if all.len() <= budget { return all; }
+        let mut v = ListFault::edges(n);
+        for _ in 0..extra { let i = ch.choose("list_fault", all.len() as u64) as usize; v.push(all[i].clone()); }
+        v
+    }
     pub fn random(ch: &mut Chooser, n: usize) -> ListFault {
         let a = ListFault::all(n);
         if a.is_empty() { return ListFault::Insert(0); }
